@@ -67,14 +67,15 @@ type simRec struct {
 }
 
 type SimStore struct {
-	t       *T
-	recs    map[string]*simRec
-	copying bool // copying flavour: Get hands out records whose getters load fresh copies
-	plan    *faultPlan
-	permute bool // permute ReadDirNames results from the choice stream
-	ambig   bool // a failing Set is applied before the error is reported
-	gets    int
-	sets    int
+	t         *T
+	recs      map[string]*simRec
+	copying   bool // copying flavour: Get hands out records whose getters load fresh copies
+	plan      *faultPlan
+	permute   bool // permute ReadDirNames results from the choice stream
+	ambig     bool // a failing Set is applied before the error is reported
+	ignoreCtx bool // the store does not look at the context it is handed (legal for a plain Store)
+	gets      int
+	sets      int
 }
 
 func newSimStore(t *T, copying bool) *SimStore {
@@ -153,7 +154,7 @@ func (s *SimStore) Get(ctx context.Context, p string) (keyvalue.FileRecord, erro
 	if s.plan.hit("Get", p) {
 		return nil, errInjected
 	}
-	if err := ctx.Err(); err != nil {
+	if err := ctx.Err(); err != nil && !s.ignoreCtx {
 		return nil, err
 	}
 	rec, ok := s.recs[p]
@@ -200,7 +201,7 @@ func (s *SimStore) Set(ctx context.Context, p string, src keyvalue.FileRecord) e
 	if fault && !s.ambig {
 		return errInjected
 	}
-	if err := ctx.Err(); err != nil {
+	if err := ctx.Err(); err != nil && !s.ignoreCtx {
 		return err
 	}
 	if src == nil {
